@@ -136,7 +136,9 @@ Definition str_leb (a b : string) : bool :=
 Record row (C : Type) := mkRow {
   r_id : Z; r_status : string; r_state : string;
   r_valid_from : string; r_valid_until : string; r_mode : string;
-  r_actor : string; r_evid : list string; r_stance : string;
+  r_actor : string (* asserted_by_key; "" = no recorded actor (not produced by KML: an absent
+                      asserted_by is stored with the endpoint key of JSON null) *);
+  r_evid : list string; r_stance : string;
   r_conf : C; r_conf_neg : bool  (* row.confidence < 0.0 *) }.
 Arguments mkRow {C}.
 Arguments r_id {C}. Arguments r_status {C}. Arguments r_state {C}.
